@@ -201,7 +201,7 @@ class Engine:
         for s in SLOTS:
             if s == recv_slot:
                 continue
-            if s == res_slot and matched is not None and matched["res"] != 0:
+            if s == res_slot and name in DERIVERS:
                 continue
             if diff(proj[s], pre[s]):
                 why.append(f"slot {s} changed although the operation was on {recv_slot}")
@@ -237,11 +237,19 @@ class Engine:
                 e1, e2 = (x == y), (y == x)
                 h1, h2 = hash(x), hash(y)
             except Exception as e:
+                import traceback
+                tb = traceback.format_exc(limit=-3)
+                if "in reactant" in tb or "in product" in tb or "in _ts" in tb:
+                    # a stereo change recorded on a bond that does not exist on that side of the
+                    # reaction: reactant()/product() refuse it; no property covers such graphs
+                    self.skipped_illformed = getattr(self, "skipped_illformed", 0) + 1
+                    return
                 self.on_failure(Failure("eqhash-raise", {"C01"} | ({"C11"} if "relabel" in tags | old.tags else set())
                                         | ({"C17"} if "algebra" in tags | old.tags else set()),
                                         f"eq-or-hash-raises|{type(e).__name__}|{old.proj[s]['kind']}",
                                         f"== or hash raised {type(e).__name__} on two objects built along different histories",
-                                        {"state": json.loads(post_t), "hist1": old.hist, "hist2": rep.hist + [_short(info['op'])]}))
+                                        {"state": json.loads(post_t), "hist1": old.hist, "hist2": rep.hist + [_short(info['op'])],
+                                         "traceback": tb}))
                 return
             if not (e1 is True and e2 is True):
                 self.on_failure(Failure("eq-miss", {"C01"}, f"same-state-unequal|{old.proj[s]['kind']}",
